@@ -221,7 +221,7 @@ Fixpoint toks (c : ctx) (t : term) {struct t} : res (list ctok) :=
   | TValNone alias => Ok (alias_toks c (q c) [CNull] alias)
   | TValRaw txt alias => Ok (alias_toks c (q c) [CNum txt] alias)
   | TNeg t' =>
-      a0 <- toks (opc SNeg t' c) t' ;;
+      a0 <- toks (opc SNeg t' (set_wa c false)) t' ;;
       let a := topnd SNeg t' a0 in
       Ok (CText "-" :: tparen (match t' with TArith _ _ _ _ => neg_parens_arith | TNeg _ => neg_parens_neg | _ => false end
                                || (neg_parens_minus && tstarts_minus a)) a)
@@ -238,25 +238,28 @@ Fixpoint toks (c : ctx) (t : term) {struct t} : res (list ctok) :=
       let c' := set_wa c false in
       a0 <- toks (opc SCmpL l c') l ;; b0 <- toks (opc SCmpR r c') r ;;
       let s := topnd SCmpL l a0 ++ CText (cmp_text cm) :: topnd SCmpR r b0 in
-      Ok (if wa c then alias_toks c None s alias else s)
+      Ok (if wa c then alias_toks c (q c) s alias else s)
   | TCplx bo l r alias =>
-      a <- toks (set_subc c (needs_brackets_x bo (top_bop l))) l ;;
-      b <- toks (set_subc c (needs_brackets_x bo (top_bop r))) r ;;
-      Ok (tparen (subc c) (a ++ CText (" " ++ bop_text_x bo ++ " ")%string :: b))
+      let c' := set_wa c false in
+      a <- toks (set_subc c' (needs_brackets_x bo (top_bop l))) l ;;
+      b <- toks (set_subc c' (needs_brackets_x bo (top_bop r))) r ;;
+      let s := tparen (subc c) (a ++ CText (" " ++ bop_text_x bo ++ " ")%string :: b) in
+      Ok (if wa c then alias_toks c (q c) s alias else s)
   | TIn t' cont negated alias =>
-      a <- toks (opc SInTerm t' (set_subq c false)) t' ;; b <- toks (set_subq c true) cont ;;
+      a <- toks (opc SInTerm t' (set_wa (set_subq c false) false)) t' ;; b <- toks (set_wa (set_subq c true) false) cont ;;
       Ok (alias_toks c (q c) (topnd SInTerm t' a ++ CText (" " ++ (if negated then "NOT " else "") ++ "IN ")%string :: b) alias)
   | TBetween t' lo hi alias =>
-      a <- toks (opc SBetTerm t' c) t' ;; b <- toks (opc SBetLo lo c) lo ;; d <- toks (opc SBetHi hi c) hi ;;
+      let c' := set_wa c false in
+      a <- toks (opc SBetTerm t' c') t' ;; b <- toks (opc SBetLo lo c') lo ;; d <- toks (opc SBetHi hi c') hi ;;
       Ok (alias_toks c (q c) (topnd SBetTerm t' a ++ CText " BETWEEN " :: topnd SBetLo lo b ++ CText " AND " :: topnd SBetHi hi d) alias)
   | TBitAnd t' v alias =>
-      a <- toks c t' ;; Ok (alias_toks c (q c) (CText "(" :: a ++ [CText (" & " ++ v ++ ")")%string]) alias)
+      a <- toks (set_wa c false) t' ;; Ok (alias_toks c (q c) (CText "(" :: a ++ [CText (" & " ++ v ++ ")")%string]) alias)
   | TIsNull t' alias =>
       a <- toks (opc SIsNull t' (set_wa c false)) t' ;; Ok (alias_toks c (q c) (topnd SIsNull t' a ++ [CText " IS NULL"]) alias)
   | TNotNull t' alias =>
       a <- toks (opc SNotNull t' (set_wa c false)) t' ;; Ok (alias_toks c (q c) (topnd SNotNull t' a ++ [CText " IS NOT NULL"]) alias)
-  | TNot t' alias => a <- toks (set_subc c true) t' ;; Ok (alias_toks (set_subc c true) (q c) (CText "NOT " :: a) alias)
-  | TAll t' alias => a <- toks c t' ;; Ok (alias_toks c (q c) (a ++ [CText " ALL"]) alias)
+  | TNot t' alias => a <- toks (set_wa (set_subc c true) false) t' ;; Ok (alias_toks (set_subc c true) (q c) (CText "NOT " :: a) alias)
+  | TAll t' alias => a <- toks (set_wa c false) t' ;; Ok (alias_toks c (q c) (a ++ [CText " ALL"]) alias)
   | TCase ws els alias =>
       let c' := set_wa c false in
       match ws with
@@ -272,9 +275,9 @@ Fixpoint toks (c : ctx) (t : term) {struct t} : res (list ctok) :=
       let s := CText (name ++ "(")%string :: tjoin "," ss
                ++ [CText ((match special with Some sp => " " ++ sp | None => "" end) ++ ")")%string] in
       Ok (if wa c then alias_toks c (q c) s alias else s)
-  | TTuple vs alias => ss <- toks_list c vs ;; Ok (alias_toks c (q c) (CText "(" :: tjoin "," ss ++ [CText ")"]) alias)
+  | TTuple vs alias => ss <- toks_list (set_wa c false) vs ;; Ok (alias_toks c (q c) (CText "(" :: tjoin "," ss ++ [CText ")"]) alias)
   | TArray vs alias =>
-      ss <- toks_list c vs ;;
+      ss <- toks_list (set_wa c false) vs ;;
       let body := tjoin "," ss in
       let s := if is_pg (dia c)
                then (if all_empty body then [CText "'{}'"] else CText "ARRAY[" :: body ++ [CText "]"])
